@@ -84,6 +84,13 @@ func (r *Report) add(rule, key, where, detail, status string, path []string) {
 	}
 }
 
+// Reset drops everything recorded so far (the check is run again with a refined program view).
+func (r *Report) Reset() {
+	r.Obls = nil
+	r.Counts = map[string]int{}
+	r.Minimum = map[string]int{}
+}
+
 // Ok records a discharged obligation.
 func (r *Report) Ok(rule, key, where, detail string) { r.add(rule, key, where, detail, OK, nil) }
 
